@@ -169,6 +169,7 @@ impl stretto::CacheCallback for RecTs {
         });
     }
     fn on_evict(&self, item: stretto::Item<Val>) {
+        slow_callback();
         let (ttl, created) = time_parts(&item);
         self.push(match item.val {
             Some(v) => Ev::Evict(v, item.index, item.conflict, item.cost, ttl, created),
@@ -176,6 +177,7 @@ impl stretto::CacheCallback for RecTs {
         });
     }
     fn on_reject(&self, item: stretto::Item<Val>) {
+        slow_callback();
         let (ttl, created) = time_parts(&item);
         self.push(match item.val {
             Some(v) => Ev::Reject(v, item.index, item.conflict, item.cost, ttl, created),
@@ -274,6 +276,24 @@ impl std::hash::BuildHasher for PerturbS {
     }
 }
 
+/// user callbacks take time: now and then the processor is held up inside on_evict / on_reject
+/// (seeded like the other perturbations; nothing happens while the seed is 0)
+fn slow_callback() {
+    let seed = PERTURB_CTR.fetch_add(0x9E37_79B9_7F4A_7C15, Ordering::Relaxed);
+    if seed == 0 {
+        return;
+    }
+    let mut x = seed;
+    x ^= x >> 31;
+    x = x.wrapping_mul(0x94D0_49BB_1331_11EB);
+    x ^= x >> 29;
+    match x % 64 {
+        0..=7 => std::thread::sleep(Duration::from_micros(50 + (x >> 8) % 350)),
+        8 => std::thread::sleep(Duration::from_millis(5 + (x >> 8) % 15)),
+        _ => {}
+    }
+}
+
 fn wrapper_guard<T>(f: impl FnOnce() -> T) -> Result<T, String> {
     std::panic::catch_unwind(std::panic::AssertUnwindSafe(f)).map_err(|p| {
         let _ = panics_take();
@@ -282,8 +302,14 @@ fn wrapper_guard<T>(f: impl FnOnce() -> T) -> Result<T, String> {
 }
 
 fn linger(us: u16) {
+    // (the largest value stands for a guard kept for 150 ms)
+    let us = if us == u16::MAX { 150_000 } else { us as u64 };
     let t0 = std::time::Instant::now();
-    while t0.elapsed() < Duration::from_micros(us as u64) {
+    if us > 5_000 {
+        std::thread::sleep(Duration::from_micros(us));
+        return;
+    }
+    while t0.elapsed() < Duration::from_micros(us) {
         std::hint::spin_loop();
     }
 }
@@ -2142,7 +2168,7 @@ pub fn stress_strategy(kind: Kind, async_pct: u32) -> BoxedStrategy<StressCase> 
                 let max_cost = units * (internal + 2);
                 let op = prop_oneof![
                     20 => sop_common(10, max_cost - internal),
-                    2 => (0u32..10, prop_oneof![12 => proptest::sample::select(vec![20u16, 100, 400, 1500]), 1 => Just(30_000u16)], any::<bool>()).prop_map(|(k, us, mutable)| SOp::GetLinger { k, us, mutable }),
+                    2 => (0u32..10, prop_oneof![24 => proptest::sample::select(vec![20u16, 100, 400, 1500]), 2 => Just(30_000u16), 2 => Just(u16::MAX)], any::<bool>()).prop_map(|(k, us, mutable)| SOp::GetLinger { k, us, mutable }),
                     clear_w.max(0) => Just(SOp::Clear),
                     1 => Just(SOp::Wait),
                     1 => (1i64..4).prop_map(move |u| SOp::UpdateMax { m: u * (internal + 2) * 3 }),
@@ -2162,7 +2188,22 @@ pub fn stress_strategy(kind: Kind, async_pct: u32) -> BoxedStrategy<StressCase> 
                 };
                 // one case in six on colliding key pairs with a perturbing hasher (value checks only)
                 let collide = perturb % 6 == 0;
-                proptest::collection::vec(proptest::collection::vec(op, 5..50), nt..=nt).prop_map(move |threads| StressCase {
+                proptest::collection::vec(proptest::collection::vec(op, 5..50), nt..=nt).prop_map(move |mut threads| {
+                    // a third of the keys are moved to k + 256: another key of the same store shard
+                    for t in threads.iter_mut() {
+                        for (i, op) in t.iter_mut().enumerate() {
+                            match op {
+                                SOp::Insert { k, .. } | SOp::Iip { k, .. } | SOp::Remove { k } | SOp::Get { k } | SOp::GetMut { k } | SOp::GetLinger { k, .. } => {
+                                    if (*k as usize * 7 + i) % 3 == 0 {
+                                        *k += 256;
+                                    }
+                                }
+                                _ => {}
+                            }
+                        }
+                    }
+                    threads
+                }).prop_map(move |threads| StressCase {
                     kind,
                     exec,
                     cfg: SCfg { num_counters: 64, max_cost, buffer_size: bs, buffer_items: 3, metrics, ignore_internal_cost: ign, cleanup_ms: 5, validator: Validator::Always, defaults: false, collide },
